@@ -70,6 +70,13 @@ CHECKS.update({
  'C19': dict(level='fault_enumeration', technique='explicit-state BFS over DB operation sequences; per settled closed state enumeration of manifest-loss/truncation/garbage variants and single-byte table damage, Recover by the real code, model comparison + LSM invariants',
    text='Every state to the depth: manifest and CURRENT removed, CURRENT removed, manifest cut at every record boundary -1/0/+1 and inside headers, manifest garbage -> Recover must give exactly the model contents, a well-formed LSM tree, a usable DB that reopens with Open. With the manifest gone, one byte per 16-byte stretch of each table data area (and all first blocks together) altered -> Recover succeeds, keys outside the damaged table read exactly as the model, others only values once written.',
    note='Settled cleanly closed states; per-block clause checked at table granularity.', design='4/C19'),
+
+ 'C07': dict(level='model_checking', technique='explicit-state BFS over DB operation sequences with held views plus explicit-state BFS over event sequences on the real version-reference loop (in-package driver), schedule search and a steady-state run',
+   text='(a) sequences with held iterators/snapshots/discarded transactions/reopen: held views re-read completely after every step, no file removed while open, storage listing == live files whenever no view is held; (b) BFS over {pin, unpin, commit, failed commit, 5 virtual minutes} on the real session reference loop, also 254..300 commits behind a pinned version: tables of current/pinned versions always exist, after all pins are released storage == current version; (c) iterator scan racing flush/compaction under bounded schedules; (d) repeated overwrite+compact does not accumulate entries.',
+   note='(b) uses synthetic one-table records through an overlay-added driver; depth 6 (4 behind long prefixes) quick, 8/6 thorough.', design='4/C07'),
+ 'C18': dict(level='model_checking', technique='explicit-state BFS over DB operation sequences; in every state exhaustive method battery after Close / SetReadOnly / read-only reopen on a recording storage in audit mode; ownership script enumeration; bounded schedule search of calls racing Close',
+   text='In every reached state: Close then 30 method calls on DB, live snapshots and the open transaction plus a second Close -> errors only, no storage operation after Close returned, lock released; read-only reopen in audit mode -> contents equal the model incl. journal-only data, writes ErrReadOnly, zero mutating storage operations; SetReadOnly -> writes ErrReadOnly, reads equal the model, nothing mutated after settling; all <=4-step Open/Close scripts on three storages; single calls racing Close under all schedules within the bound.',
+   note='Single process (no cross-process file lock); iterators held across Close are outside the contract.', design='4/C18'),
 })
 NA = {}
 
